@@ -2131,10 +2131,10 @@ def disk_io_counters(perdisk=False, nowrap=True):
     kwargs = dict(perdisk=perdisk) if LINUX else {}
     with _nowrap_lock:
         rawdict = _psplatform.disk_io_counters(**kwargs)
-        if not rawdict:
-            return {} if perdisk else None
         if nowrap:
             rawdict = _wrap_numbers(rawdict, 'psutil.disk_io_counters')
+        if not rawdict:
+            return {} if perdisk else None
     nt = getattr(_psplatform, "sdiskio", _common.sdiskio)
     if perdisk:
         for disk, fields in rawdict.items():
@@ -2183,10 +2183,10 @@ def net_io_counters(pernic=False, nowrap=True):
     """
     with _nowrap_lock:
         rawdict = _psplatform.net_io_counters()
-        if not rawdict:
-            return {} if pernic else None
         if nowrap:
             rawdict = _wrap_numbers(rawdict, 'psutil.net_io_counters')
+        if not rawdict:
+            return {} if pernic else None
     if pernic:
         for nic, fields in rawdict.items():
             rawdict[nic] = _common.snetio(*fields)
